@@ -29,6 +29,8 @@ type c14Variant struct {
 	Ev    mhubtypes.ExternalEvent
 }
 
+func pow2(n uint) sdk.Int { return sdk.NewIntFromBigInt(new(big.Int).Lsh(big.NewInt(1), n)) }
+
 func big2(hexs string) sdk.Int {
 	b, _ := new(big.Int).SetString(hexs, 16)
 	return sdk.NewIntFromBigInt(b)
@@ -57,6 +59,14 @@ func (c *C14) variants() map[string][]c14Variant {
 		{"recipient", "minter", sth(func(e *mhubtypes.SendToHubEvent) { e.CosmosReceiver = u2 })},
 		{"height", "minter", sth(func(e *mhubtypes.SendToHubEvent) { e.ExternalHeight = 101 })},
 		{"txhash", "minter", sth(func(e *mhubtypes.SendToHubEvent) { e.TxHash = "0xbb" })},
+		// differences confined to the high bits of an amount (a fixed-width encoding would drop them)
+		{"amount(+2^64)", "minter", sth(func(e *mhubtypes.SendToHubEvent) { e.Amount = e.Amount.Add(pow2(64)) })},
+		{"amount(+2^128)", "minter", sth(func(e *mhubtypes.SendToHubEvent) { e.Amount = e.Amount.Add(pow2(128)) })},
+		{"amount(+2^192)", "minter", sth(func(e *mhubtypes.SendToHubEvent) { e.Amount = e.Amount.Add(pow2(192)) })},
+		// other spellings of the same 20 bytes: the hub acts on the reported string, not on the decoded bytes
+		{"sender(upper-case hex)", "minter", sth(func(e *mhubtypes.SendToHubEvent) { e.Sender = strings.ToUpper(s1[2:]) })},
+		{"sender(0X-prefixed)", "minter", sth(func(e *mhubtypes.SendToHubEvent) { e.Sender = "0X" + s1[2:] })},
+		{"sender(0x-prefixed,upper-case)", "minter", sth(func(e *mhubtypes.SendToHubEvent) { e.Sender = "0x" + strings.ToUpper(s1[2:]) })},
 	}
 	// ---- TransferToChainEvent
 	ttc := func(mod func(e *mhubtypes.TransferToChainEvent)) *mhubtypes.TransferToChainEvent {
@@ -83,6 +93,23 @@ func (c *C14) variants() map[string][]c14Variant {
 		})},
 		{"height", "minter", ttc(func(e *mhubtypes.TransferToChainEvent) { e.ExternalHeight = 101 })},
 		{"txhash", "minter", ttc(func(e *mhubtypes.TransferToChainEvent) { e.TxHash = "0xbb" })},
+		{"amount(+2^64)", "minter", ttc(func(e *mhubtypes.TransferToChainEvent) { e.Amount = e.Amount.Add(pow2(64)) })},
+		{"amount(+2^128)", "minter", ttc(func(e *mhubtypes.TransferToChainEvent) { e.Amount = e.Amount.Add(pow2(128)) })},
+		{"amount+fee(+2^64)", "minter", ttc(func(e *mhubtypes.TransferToChainEvent) { e.Amount = e.Amount.Add(pow2(65)); e.Fee = e.Fee.Add(pow2(64)) })},
+		{"amount(+2^65)", "minter", ttc(func(e *mhubtypes.TransferToChainEvent) { e.Amount = e.Amount.Add(pow2(65)) })},
+		{"sender(upper-case hex)", "minter", ttc(func(e *mhubtypes.TransferToChainEvent) { e.Sender = strings.ToUpper(s1[2:]) })},
+		{"sender(0X-prefixed)", "minter", ttc(func(e *mhubtypes.TransferToChainEvent) { e.Sender = "0X" + s1[2:] })},
+		{"recipient(upper-case hex)", "minter", ttc(func(e *mhubtypes.TransferToChainEvent) { e.ExternalReceiver = "0x" + strings.ToUpper(r1[2:]) })},
+		{"recipient(0X-prefixed)", "minter", ttc(func(e *mhubtypes.TransferToChainEvent) { e.ExternalReceiver = "0X" + r1[2:] })},
+		{"recipient(no prefix)", "minter", ttc(func(e *mhubtypes.TransferToChainEvent) { e.ExternalReceiver = r1[2:] })},
+		{"destination(hub),recipient(no prefix)", "minter", ttc(func(e *mhubtypes.TransferToChainEvent) {
+			e.ReceiverChainId = "hub"
+			e.ExternalReceiver = hex.EncodeToString(hub.User("u1").Bytes())
+		})},
+		{"destination(hub),recipient(0X-prefixed)", "minter", ttc(func(e *mhubtypes.TransferToChainEvent) {
+			e.ReceiverChainId = "hub"
+			e.ExternalReceiver = "0X" + hex.EncodeToString(hub.User("u1").Bytes())
+		})},
 	}
 	// ---- BatchExecutedEvent (ethereum: batch 1 of EthHub pending in the pre-state; also nonce 2)
 	bee := func(mod func(e *mhubtypes.BatchExecutedEvent)) *mhubtypes.BatchExecutedEvent {
@@ -104,6 +131,12 @@ func (c *C14) variants() map[string][]c14Variant {
 		// optional fields shifted across their boundary: fee 31000 / no payer  vs  no fee / payer "31000"
 		{"feepaid 31000, empty feepayer", "ethereum", bee(func(e *mhubtypes.BatchExecutedEvent) { e.FeePaid = sdk.NewInt(31000); e.FeePayer = "" })},
 		{"feepaid absent, feepayer \"31000\"", "ethereum", bee(func(e *mhubtypes.BatchExecutedEvent) { e.FeePaid = sdk.Int{}; e.FeePayer = "31000" })},
+		{"feepaid(+2^64)", "ethereum", bee(func(e *mhubtypes.BatchExecutedEvent) { e.FeePaid = e.FeePaid.Add(pow2(64)) })},
+		{"feepayer(upper-case hex)", "ethereum", bee(func(e *mhubtypes.BatchExecutedEvent) { e.FeePayer = "0x" + strings.ToUpper(r1[2:]) })},
+		{"feepayer(0X-prefixed)", "ethereum", bee(func(e *mhubtypes.BatchExecutedEvent) { e.FeePayer = "0X" + r1[2:] })},
+		{"feepayer(no prefix)", "ethereum", bee(func(e *mhubtypes.BatchExecutedEvent) { e.FeePayer = r1[2:] })},
+		{"asset(upper-case hex)", "ethereum", bee(func(e *mhubtypes.BatchExecutedEvent) { e.ExternalCoinId = "0x" + strings.ToUpper(EthHub[2:]) })},
+		{"asset(lower-case hex)", "ethereum", bee(func(e *mhubtypes.BatchExecutedEvent) { e.ExternalCoinId = strings.ToLower(EthHub) })},
 	}
 	// ---- ContractCallExecutedEvent
 	cce := func(mod func(e *mhubtypes.ContractCallExecutedEvent)) *mhubtypes.ContractCallExecutedEvent {
@@ -146,7 +179,27 @@ func (c *C14) variants() map[string][]c14Variant {
 		{"members(same thrice)", "ethereum", sse(func(e *mhubtypes.SignerSetTxExecutedEvent) { e.Members = m6 })},
 		{"members(reordered)", "ethereum", sse(func(e *mhubtypes.SignerSetTxExecutedEvent) { e.Members = m7 })},
 		{"txhash", "ethereum", sse(func(e *mhubtypes.SignerSetTxExecutedEvent) { e.TxHash = "0xbb" })},
+		{"members(power+2^32)", "ethereum", sse(func(e *mhubtypes.SignerSetTxExecutedEvent) {
+			e.Members = []*mhubtypes.ExternalSigner{{Power: 100 + 1<<32, ExternalAddress: r1}, {Power: 50, ExternalAddress: r2}}
+		})},
+		// (the letter case of a member address is not varied: the member list is identified by its 20-byte addresses,
+		// exactly as the contract's checkpoint does, and the spelling of a member has no effect beyond the stored text)
 	}
+	// the spelling / high-bit variants are kept only where the event type's own Validate admits them
+	for typ, l := range out {
+		var keep []c14Variant
+		for _, v := range l {
+			if strings.Contains(v.Name, "case") || strings.Contains(v.Name, "prefix") || strings.Contains(v.Name, "+2^") {
+				if err := v.Ev.Validate(mhubtypes.ChainID(v.Chain)); err != nil {
+					c.inadmissible = append(c.inadmissible, typ+"."+v.Name)
+					continue
+				}
+			}
+			keep = append(keep, v)
+		}
+		out[typ] = keep
+	}
+	sort.Strings(c.inadmissible)
 	return out
 }
 
@@ -270,7 +323,8 @@ func cloneEvent(e mhubtypes.ExternalEvent) mhubtypes.ExternalEvent {
 }
 
 type C14 struct {
-	bridge *Bridge
+	bridge       *Bridge
+	inadmissible []string
 }
 
 func NewC14() *C14 {
@@ -429,8 +483,8 @@ func init() {
 			}
 			out.Evidence = map[string]interface{}{"level": "exploration", "coverage": map[string]interface{}{
 				"evaluations": r.pairs, "distinct_nontrivial": r.distinctSigs,
-				"rule":        "all unordered pairs of per-field variants of each of the 5 event types (base + 5..13 alternatives incl. 0x-prefixed senders, Minter ids 1/12 with amounts whose big-endian bytes start with 0x32) plus one constructed cross-type pair and, for the three event types with two free-form fields, constructed frame-overflow pairs for 1- and 2-byte length frames (a field of length n and one of length n+2^(8k) frame identically); a pair is distinct by (type, set of differing fields); every pair is hashed with the real Hash(); pairs with equal hash are applied with the real ExternalEventProcessor.Handle to a pre-state with pending batches and compared by store digest",
-				"samples":     r.samples, "equal_hash_pairs": r.equalHash, "exhaustive": true,
+				"rule":        "all unordered pairs of per-field variants of each of the 5 event types (base + 5..25 alternatives incl. other spellings of one address (prefix 0x/0X/none, letter case) wherever Validate admits them, amounts differing only above bit 64/128/192, Minter ids 1/12 with amounts whose big-endian bytes start with 0x32) plus one constructed cross-type pair and, for the three event types with two free-form fields, constructed frame-overflow pairs for 1- and 2-byte length frames (a field of length n and one of length n+2^(8k) frame identically); a pair is distinct by (type, set of differing fields); every pair is hashed with the real Hash(); pairs with equal hash are applied with the real ExternalEventProcessor.Handle to a pre-state with pending batches and compared by store digest",
+				"samples":     r.samples, "equal_hash_pairs": r.equalHash, "exhaustive": true, "variants_not_admitted_by_validate": c.inadmissible,
 			}, "assumptions": []string{"effect = store digest + error after Handle on one representative pre-state (prices present, two pending ethereum batches, funded users); module hooks are nil as in app.go"}}
 			out.Summary = fmt.Sprintf("pairs=%d equal_hash=%d violations=%d known=%d (%s)", r.pairs, r.equalHash, len(out.Violations), len(out.Known), time.Since(start).Round(time.Millisecond))
 			return out
